@@ -5,6 +5,7 @@ import OW.Driver.Fn
 import OW.Driver.Nd
 import OW.Driver.Wrapper
 import OW.Driver.Json
+import OW.Driver.H5
 namespace OW.Driver
 open OW.Proto
 
@@ -24,6 +25,8 @@ def dispatch (fam : String) (args : Toks) : String :=
   | "PW" => Fn.handlePW args
   | "JSON" => Json.handleJSON args
   | "JSA" => Json.handleJSA args
+  | "H5" => H5.handle args
+  | "H5U" => H5.handleU args
   | _ => "bad-family"
 
 def handleLine (line : String) : String :=
